@@ -127,7 +127,12 @@ func (c *recursionChecker) check(node ischema.Node, types map[string]ischema.Typ
 
 	// We should check all fields in the object 'cause some of them can be required.
 	case *ischema.ObjectNode:
-		for _, n := range node.Children() {
+		for i, n := range node.Children() {
+			// A key shortcut stands for any number of members, none included:
+			// what its value refers to is not required.
+			if node.Key(i).IsShortcut {
+				continue
+			}
 			if err := c.check(n, types); err != nil {
 				return err
 			}
